@@ -33,7 +33,7 @@ def regressions():
                         {"t": 300, "op": "msg"}], "dur": 10000})
     # an application call exactly at the first deadline of a periodic timer (wake at deadline == now)
     out.append({"scripts": {"1": {"ret": True, "ops": []}, "2": {"ret": False, "ops": []}},
-                "ops": [{"t": 0, "op": "add", "cb": 1, "delta": 32768}, {"t": 32768, "op": "add", "cb": 2, "delta": 5000}], "dur": 200000})
+                "ops": [{"t": 0, "op": "add", "cb": 1, "delta": 500000}, {"t": 500000, "op": "add", "cb": 2, "delta": 5000}], "dur": 1300000})
     # a callback that removes itself and returns True / False; a callback removing the next entry
     out.append({"scripts": {"1": {"ret": True, "ops": [{"op": "remove", "cb": 1}]}, "2": {"ret": False, "ops": [{"op": "remove", "cb": 2}]},
                             "3": {"ret": True, "ops": [{"op": "remove", "cb": 4}]}, "4": {"ret": True, "ops": []}},
